@@ -90,102 +90,170 @@ def validate(path, work, cov, samples) -> list:
     return [sig_of(m, hist_by_tid) for m in mism]
 
 
+def _merge(cov: dict, part: dict) -> None:
+    for k, v in part.items():
+        if isinstance(v, (int, float)) and not isinstance(v, bool):
+            cov[k] = cov.get(k, 0) + v
+        elif isinstance(v, list):
+            cov.setdefault(k, []).extend(v)
+        elif isinstance(v, dict):
+            cov.setdefault(k, {}).update(v)
+        else:
+            cov[k] = v
+
+
+def _count(cov: dict, st: dict) -> None:
+    for k in ('steps', 'steps_logged', 'xp', 'parse_fail', 'patched'):
+        cov[k] = cov.get(k, 0) + st.get(k, 0)
+
+
+def _phase_design(tier: str) -> dict:
+    """1. the design: exhaustive checking of all short histories"""
+    t = time.time()
+    r = run_tlc('VmfDoc', 'VmfDoc_mc_thorough.cfg' if tier == 'thorough' else 'VmfDoc_mc.cfg', timeout=1500)
+    core.require_mc(r, 'VmfDoc_mc')
+    if r.distinct < 1000:
+        raise MachineryError(f'vacuous model: only {r.distinct} states')
+    return {'cov': {'states': r.distinct, 'transitions': r.generated,
+                    'models': {'VmfDoc_mc': {'generated': r.generated, 'distinct': r.distinct, 'depth': r.depth}},
+                    'stage_wall_s': {'model_checking': round(time.time() - t, 1)}}, 'sigs': [], 'samples': []}
+
+
+def _sim_batch(b: int, tier: str, seed: int, work) -> dict:
+    thorough = tier == 'thorough'
+    cov = {'states': 0, 'transitions': 0, 'fvs': []}
+    samples: list = []
+    ops: dict = {}
+    r = run_tlc('VmfDoc', 'VmfDoc_sim.cfg', simulate='num=%d' % (60 if thorough else 20), depth=45,
+                seed=seed * 1000 + b, workers=16 if thorough else 8, timeout=1500)
+    core.require_mc(r, 'VmfDoc_sim')
+    hists = [p for p in r.prints if isinstance(p, dict) and p.get('tag') == 'HIST']
+    if not hists:
+        raise MachineryError('simulation produced no histories')
+    for h in hists:
+        for a in h['h']:
+            ops[a['op']] = ops.get(a['op'], 0) + 1
+    hf = work.path(f'hist{b}.json')
+    hf.write_text(json.dumps(hists))
+    out = work.path(f'sim{b}.ndjson')
+    _count(cov, json.loads(core.run_driver('c06_driver.py', ['sim', hf, out],
+                                           env={'VERIF_SEED': seed * 100 + b, 'VERIF_TIER': tier}).strip().splitlines()[-1]))
+    sigs = validate(out, work, cov, samples)
+    return {'cov': cov, 'sigs': sigs, 'samples': samples, 'ops': ops, 'n': len(hists)}
+
+
+def _phase_sim(tier: str, seed: int, work) -> dict:
+    """2. direction A: TLC-simulated builder histories, replayed through the real API, until every feasible pair
+    of optional-block features has been seen (batches run side by side, two - thorough three - at a time)"""
+    from concurrent.futures import ThreadPoolExecutor
+    width = 3 if tier == 'thorough' else 2
+    t = time.time()
+    cov = {'states': 0, 'transitions': 0, 'fvs': []}
+    samples: list = []
+    sigs: list = []
+    ops_seen: dict = {}
+    n_hist = batches = 0
+    while True:
+        with ThreadPoolExecutor(max_workers=width) as ex:
+            res = list(ex.map(lambda b: _sim_batch(b, tier, seed, work), range(batches + 1, batches + width + 1)))
+        batches += width
+        for part in res:
+            _merge(cov, part['cov'])
+            sigs += part['sigs']
+            samples += part['samples']
+            n_hist += part['n']
+            for k, n in part['ops'].items():
+                ops_seen[k] = ops_seen.get(k, 0) + n
+        sim_fvs = [f for s, f in cov['fvs'] if s == 'sim']
+        got, need, missing = pair_coverage(sim_fvs)
+        if not missing:
+            break
+        if batches >= 12:
+            raise MachineryError(f'feature pairs never exercised after {n_hist} simulated histories: {missing[:6]}')
+    if BUILDER_OPS - set(ops_seen):
+        raise MachineryError(f'vacuous: builder actions never taken: {sorted(BUILDER_OPS - set(ops_seen))}')
+    cov['histories_replayed'] = n_hist
+    cov['sim_batches'] = batches
+    cov['actions_covered'] = ops_seen
+    cov['feature_pairs'] = {'covered': got, 'feasible': need, 'distinct_feature_vectors':
+                            len({json.dumps(f, sort_keys=True) for f in sim_fvs})}
+    cov['stage_wall_s'] = {'simulate_replay_validate': round(time.time() - t, 1)}
+    return {'cov': cov, 'sigs': sigs, 'samples': samples}
+
+
+def _phase_pairs(tier: str, seed: int, work) -> dict:
+    """2b. thorough: every history of one or two builder calls (all ordered pairs of calls over the reduced parameter
+    domains), exhaustively enumerated by TLC, replayed"""
+    t = time.time()
+    cov = {'states': 0, 'transitions': 0, 'fvs': []}
+    samples: list = []
+    r = run_tlc('VmfDoc', 'VmfDoc_pairs.cfg', workers=1, timeout=1500)
+    core.require_mc(r, 'VmfDoc_pairs')
+    hists = [p for p in r.prints if isinstance(p, dict) and p.get('tag') == 'HIST']
+    if len(hists) < 1000:
+        raise MachineryError(f'only {len(hists)} exhaustive short histories')
+    hf = work.path('pairs.json')
+    hf.write_text(json.dumps(hists))
+    out = work.path('pairs.ndjson')
+    _count(cov, json.loads(core.run_driver('c06_driver.py', ['sim', hf, out, 'nosteps'],
+                                           env={'VERIF_SEED': seed, 'VERIF_TIER': tier}).strip().splitlines()[-1]))
+    sigs = validate(out, work, cov, samples)
+    cov['exhaustive_short_histories'] = len(hists)
+    cov['stage_wall_s'] = {'exhaustive_pairs': round(time.time() - t, 1)}
+    return {'cov': cov, 'sigs': sigs, 'samples': samples}
+
+
+def _phase_mode(mode: str, tier: str, seed: int, work) -> dict:
+    """3. direction B: seeded random documents far outside the bounds; every shipped .vmf"""
+    t = time.time()
+    cov = {'states': 0, 'transitions': 0, 'fvs': []}
+    samples: list = []
+    out = work.path(mode + '.ndjson')
+    st = json.loads(core.run_driver('c06_driver.py', [mode, out],
+                                    env={'VERIF_SEED': seed, 'VERIF_TIER': tier}).strip().splitlines()[-1])
+    _count(cov, st)
+    if mode == 'files':
+        cov['files'] = st.get('files', [])
+        if len(cov['files']) < 1:
+            raise MachineryError('no .vmf files found under tests/')
+    sigs = validate(out, work, cov, samples)
+    cov['stage_wall_s'] = {mode: round(time.time() - t, 1)}
+    return {'cov': cov, 'sigs': sigs, 'samples': samples}
+
+
 def run(tier: str, seed: int) -> int:
+    from concurrent.futures import ThreadPoolExecutor
     t0 = time.time()
     work = core.Work()
     thorough = tier == 'thorough'
     try:
         cov = {'states': 0, 'transitions': 0, 'models': {}, 'fvs': [], 'stage_wall_s': {}}
         samples: list = []
-
-        def lap(name, t=[time.time()]):
-            cov['stage_wall_s'][name] = round(cov['stage_wall_s'].get(name, 0) + time.time() - t[0], 1)
-            t[0] = time.time()
         sigs: list = []
-        # 1. the design: exhaustive checking of all short histories
-        r = run_tlc('VmfDoc', 'VmfDoc_mc_thorough.cfg' if thorough else 'VmfDoc_mc.cfg', timeout=1500)
-        core.require_mc(r, 'VmfDoc_mc')
-        if r.distinct < 1000:
-            raise MachineryError(f'vacuous model: only {r.distinct} states')
-        cov['models']['VmfDoc_mc'] = {'generated': r.generated, 'distinct': r.distinct, 'depth': r.depth}
-        cov['states'] += r.distinct
-        cov['transitions'] += r.generated
-        lap('model_checking')
-        # 2. direction A: TLC-simulated builder histories, replayed through the real API, until
-        #    every feasible pair of optional-block features has been seen
-        ops_seen: dict = {}
-        n_hist = 0
-        batches = 0
-        sim_fvs: list = []
-        while True:
-            batches += 1
-            r = run_tlc('VmfDoc', 'VmfDoc_sim.cfg', simulate='num=%d' % (60 if thorough else 20), depth=45,
-                        seed=seed * 1000 + batches, workers=16 if thorough else 8, timeout=1500)
-            core.require_mc(r, 'VmfDoc_sim')
-            lap('tlc_simulation')
-            hists = [p for p in r.prints if isinstance(p, dict) and p.get('tag') == 'HIST']
-            if not hists:
-                raise MachineryError('simulation produced no histories')
-            for h in hists:
-                for a in h['h']:
-                    ops_seen[a['op']] = ops_seen.get(a['op'], 0) + 1
-            n_hist += len(hists)
-            hf = work.path(f'hist{batches}.json')
-            hf.write_text(json.dumps(hists))
-            out = work.path(f'sim{batches}.ndjson')
-            st = json.loads(core.run_driver('c06_driver.py', ['sim', hf, out],
-                                            env={'VERIF_SEED': seed * 100 + batches, 'VERIF_TIER': tier}).strip().splitlines()[-1])
-            for k in ('steps', 'steps_logged', 'xp', 'parse_fail', 'patched'):
-                cov[k] = cov.get(k, 0) + st.get(k, 0)
-            lap('replay_histories')
-            sigs += validate(out, work, cov, samples)
-            lap('tlc_validation')
-            sim_fvs = [f for s, f in cov['fvs'] if s == 'sim']
-            got, need, missing = pair_coverage(sim_fvs)
-            if not missing and batches >= (3 if thorough else 1):
-                break
-            if batches >= 12:
-                raise MachineryError(f'feature pairs never exercised after {n_hist} simulated histories: {missing[:6]}')
-        if BUILDER_OPS - set(ops_seen):
-            raise MachineryError(f'vacuous: builder actions never taken: {sorted(BUILDER_OPS - set(ops_seen))}')
-        cov['histories_replayed'] = n_hist
-        cov['sim_batches'] = batches
-        cov['actions_covered'] = ops_seen
-        cov['feature_pairs'] = {'covered': got, 'feasible': need, 'distinct_feature_vectors':
-                                len({json.dumps(f, sort_keys=True) for f in sim_fvs})}
-        # 2b. thorough: every history of one or two builder calls (all ordered pairs of calls over the reduced
-        #     parameter domains), exhaustively enumerated by TLC, replayed
-        if thorough:
-            r = run_tlc('VmfDoc', 'VmfDoc_pairs.cfg', workers=1, timeout=1500)
-            core.require_mc(r, 'VmfDoc_pairs')
-            hists = [p for p in r.prints if isinstance(p, dict) and p.get('tag') == 'HIST']
-            if len(hists) < 1000:
-                raise MachineryError(f'only {len(hists)} exhaustive short histories')
-            hf = work.path('pairs.json')
-            hf.write_text(json.dumps(hists))
-            out = work.path('pairs.ndjson')
-            st = json.loads(core.run_driver('c06_driver.py', ['sim', hf, out, 'nosteps'],
-                                            env={'VERIF_SEED': seed, 'VERIF_TIER': tier}).strip().splitlines()[-1])
-            for k in ('steps', 'steps_logged', 'xp', 'parse_fail', 'patched'):
-                cov[k] = cov.get(k, 0) + st.get(k, 0)
-            sigs += validate(out, work, cov, samples)
-            cov['exhaustive_short_histories'] = len(hists)
-            lap('exhaustive_pairs')
-        # 3. direction B: seeded random documents far outside the bounds; every shipped .vmf
-        for mode in ('random', 'files'):
-            out = work.path(mode + '.ndjson')
-            st = json.loads(core.run_driver('c06_driver.py', [mode, out],
-                                            env={'VERIF_SEED': seed, 'VERIF_TIER': tier}).strip().splitlines()[-1])
-            for k in ('steps', 'steps_logged', 'xp', 'parse_fail', 'patched'):
-                cov[k] = cov.get(k, 0) + st.get(k, 0)
-            if mode == 'files':
-                cov['files'] = st.get('files', [])
-                if len(cov['files']) < 1:
-                    raise MachineryError('no .vmf files found under tests/')
-            sigs += validate(out, work, cov, samples)
-            lap(mode)
-        # 4. binding self-check: one leaf of every class of the re-read document (and tokens of both texts) altered in
-        #    an accepted record; TLC must reject every altered record
+        # the phases are independent of one another (own record files, own TLC runs): run them side by side
+        with ThreadPoolExecutor(max_workers=8) as ex:
+            futs = [ex.submit(_phase_design, tier), ex.submit(_phase_sim, tier, seed, work),
+                    ex.submit(_phase_mode, 'random', tier, seed, work), ex.submit(_phase_mode, 'files', tier, seed, work)]
+            if thorough:
+                futs.append(ex.submit(_phase_pairs, tier, seed, work))
+
+            def outputs():
+                # the text form of outputs on its own (both separators, instance forms, combine)
+                from props import sub_output
+                t = time.time()
+                so = sub_output.collect(tier, seed, work)
+                so['wall'] = round(time.time() - t, 1)
+                return so
+            f_out = ex.submit(outputs)
+            parts = [f.result() for f in futs]
+            so = f_out.result()
+        for part in parts:
+            _merge(cov, part['cov'])
+            sigs += part['sigs']
+            samples += part['samples']
+        # 4. binding self-check: one leaf of every class of the re-read document (and tokens of the three texts) altered
+        #    in an accepted record; TLC must reject every altered record
+        t = time.time()
         out = work.path('corrupt.ndjson')
         st = json.loads(core.run_driver('c06_driver.py', ['corrupt'] + cov.pop('rec_files') + [out]).strip().splitlines()[-1])
         cm, cst = core.validate_records('VmfDocTrace', 'VmfDocTrace.cfg', out, work=work, heap='4g')
@@ -196,7 +264,8 @@ def run(tier: str, seed: int) -> int:
             raise MachineryError(f'binding self-check: altered records accepted by the trace specification: {accepted_wrongly[:10]}')
         if len(st['leaf_classes']) < 100:
             raise MachineryError(f'binding self-check covered only {len(st["leaf_classes"])} field classes')
-        lap('binding_selfcheck')
+        cov['stage_wall_s']['binding_selfcheck'] = round(time.time() - t, 1)
+        cov['stage_wall_s']['output_subcheck'] = so['wall']
         cov['binding_selfcheck'] = {'altered_records_rejected': len(crecs), 'field_classes': len(st['leaf_classes'])}
         cov['states'] += cst['states']
         cov['transitions'] += cst['transitions']
@@ -204,15 +273,12 @@ def run(tier: str, seed: int) -> int:
         cov['distinct_feature_vectors_all'] = len({json.dumps(f, sort_keys=True) for f in fv_all})
         cov['traces_validated_against_impl'] = cov.pop('xp_total') + 0
         cov['samples'] = samples[:4]
-        cov['mismatches'] = len(sigs)
         cov['exhaustive'] = False
         cov['rule'] = ('all builder histories of length 2 exhaustively in the model (thorough: over the rich parameter domains); simulated histories of 4-32 public '
                        'API calls replayed until all feasible pairs of 26 optional-block features were seen; seeded random '
-                       'documents (up to ~190 calls, displacements of power 1-4 fully populated, Unicode/escape-heavy strings); '
-                       'every .vmf under tests/ with preserve_ids on and off, minimal on and off')
-        # the text form of outputs on its own (both separators, instance forms, combine)
-        from props import sub_output
-        so = sub_output.collect(tier, seed, work)
+                       'documents (up to ~190 calls, displacements of power 1-4 fully populated, Unicode/escape-heavy strings, membership sets '
+                       'with hash-colliding IDs in shuffled insertion orders); every .vmf under tests/ with preserve_ids on and off, minimal on '
+                       'and off; three export/parse cycles per document')
         cov['states'] += so['cov']['states']
         cov['transitions'] += so['cov']['transitions']
         cov['models'].update(so['cov']['models'])
